@@ -172,6 +172,21 @@ Theorem C17_register : forall s c f ex, wfo c -> Forall (fun p => p < length s) 
     /\ (forall k, In k (pexcl (sget (fst (register s c f ex)) p)) <-> (ex = true /\ k = fst f) \/ In k (pexcl (sget s p))).
 Proof. exact register_spec. Qed.
 
+(* multi-contexts, read-level corollaries of C17_multi_merge: a multi-context of ONE member reads as the member; the
+   first member whose OWN layer defines a name wins whatever the members' ancestors define (layer-wise, not depth-first:
+   seeds C17_1 / C04_7); a member whose own layer is silent is skipped in the first layer *)
+Theorem C17_multi_single : forall s c n, get_data s (new_multi [c]) n = get_data s c n.
+Proof. exact multi_single. Qed.
+
+Theorem C17_multi_own_layers_first : forall s m r n v,
+  get_own s m n = Some v -> get_data s (new_multi (m :: r)) n = Some v.
+Proof. exact multi_own_layers_first. Qed.
+
+Theorem C17_multi_skips_silent_member : forall s m r n,
+  get_own s m n = None -> r <> [] ->
+  layer_get s n (hd [] (flatten (new_multi (m :: r)))) = layer_get s n (hd [] (flatten (new_multi r))).
+Proof. exact multi_skips_silent_member. Qed.
+
 (* the premise of C17_child_shadow holds for every context of every reachable state *)
 Theorem C17_history_good : forall ops,
   Forall (good (length (st (run_state init_state ops)))) (env (run_state init_state ops)).
@@ -196,6 +211,9 @@ Proof. vm_compute. repeat split. Qed.
 
 Print Assumptions C17_child_transparent.
 Print Assumptions C17_child_shadow.
+Print Assumptions C17_multi_single.
+Print Assumptions C17_multi_own_layers_first.
+Print Assumptions C17_multi_skips_silent_member.
 Print Assumptions C17_register.
 Print Assumptions C17_delete_function.
 Print Assumptions C17_child_register.
